@@ -27,4 +27,6 @@ mkdir -p .cache
 ( cd harness/cycle_probe && cargo build --offline --release --target-dir ../../.cache/target-cycle && cargo build --offline --release --features wrapping_version --target-dir ../../.cache/target-cycle-wrap && RUSTFLAGS="--cfg gecs_verif" cargo build --offline --release --target-dir ../../.cache/target-cycle-hook ) || echo "setup: cycle_probe build failed"
 [ -f harness/api_probe/Cargo.lock ] || cp /repo/Cargo.lock harness/api_probe/Cargo.lock
 ( cd harness/api_probe && cargo build --offline --target-dir ../../.cache/target-api && cargo build --offline --release --target-dir ../../.cache/target-api ) || echo "setup: api_probe build failed"
+[ -f harness/xcrate_probe/Cargo.lock ] || cp /repo/Cargo.lock harness/xcrate_probe/Cargo.lock
+( cd harness/xcrate_probe && cargo build --offline --target-dir ../../.cache/target-xcrate && cargo build --offline --release --target-dir ../../.cache/target-xcrate ) || echo "setup: xcrate_probe build failed"
 echo "setup done"
